@@ -15,8 +15,9 @@ ENTRY = {
                    "applicable resolver, identical response (status, 1xx list, headers, body) and identical panic value (also as seen by an outer Recovery) with and without the Logger.",
         level_note="The dimensions are sampled (their product is small, the sweep enumerates status x kind x resolver outcome completely for one request shape). Not judged and counted: "
                    "status and level when only 1xx statuses were written, level for 101, the message when no resolver applies and RemoteAddr is not IP:port, the location attribute on "
-                   "non-3xx responses, the latency attribute. DefaultOptions itself is not exercised (its Logger writes to the process stdout through an internal handler that cannot be "
-                   "captured); its ordering Recovery-outside-Logger is reproduced with CustomRecoveryWithLogHandler + LoggerWithHandler.",
+                   "non-3xx responses, the latency attribute. DefaultOptions itself is not exercised in the main generator (its Logger writes to the process stdout through an internal handler); "
+                   "its ordering Recovery-outside-Logger is reproduced with CustomRecoveryWithLogHandler + LoggerWithHandler, and what fox.Logger() itself prints is read from a child "
+                   "process by TestDefaultLogger (one [FOX] line per request, about that request, for paths up to 40 000 bytes).",
         rule="cases: (logger installation, resolvers, request, handler kind, behaviour script); non-trivial = a status at a class boundary (199/200/299/300/399/400/499/500) was passed to "
              "WriteHeader, or the applicable resolver fails, or the route carries its own resolver option; distinct by the JSON form of the case",
         assumptions=["status 'actually recorded' = first non-informational status received by the underlying http.ResponseWriter, 200 when the handler returns without one (net/http semantics)",
